@@ -181,7 +181,7 @@ func runC17(p *load.Program, r *core.Report) {
 				}
 				bad := reaches([]Point{{start.Blocks[0], 0}}, isReset, func(in ssa.Instruction) bool {
 					ret, ok := in.(*ssa.Return)
-					return ok && errKind(ret.Results[0]) == "nil"
+					return ok && maybeNilResult(ret, 0)
 				})
 				// alternative: terminate clears it after the callback
 				altOK := false
@@ -221,7 +221,7 @@ func runC17(p *load.Program, r *core.Report) {
 					}
 					bad := reaches([]Point{{start.Blocks[0], 0}}, isStore, func(in ssa.Instruction) bool {
 						ret, ok := in.(*ssa.Return)
-						return ok && errKind(ret.Results[0]) == "nil"
+						return ok && maybeNilResult(ret, 0)
 					})
 					if bad != nil {
 						r.Bad(rule, key, fn, p.Pos(bad.Pos()), inst, "a successful return is reachable without a.mode = mode: the application keeps the mode of its previous run (or the zero mode) and reacts to member terminations by the wrong rule")
